@@ -261,6 +261,18 @@ func runC14(c *Ctx) {
 func (c *Ctx) scanCompleteness(fn *ssa.Function, match FP, what string) {
 	w := c.W
 	n := 0
+	top := fn
+	// the scan may live in a helper the function calls directly (one level), seen with the caller's arguments
+	withHelperContexts(top, func(fn *ssa.Function, _ *ssa.Call) {
+		c.scanCompletenessIn(fn, match, what, &n)
+	})
+	c.Check(n >= 1, "R-CUT", FuncName(top), what+": comparison branch found", w.Pos(top.Pos()), fmt.Sprint(n))
+}
+
+func (c *Ctx) scanCompletenessIn(fn *ssa.Function, match FP, what string, np *int) {
+	w := c.W
+	n := *np
+	defer func() { *np = n }()
 	for _, b := range fn.Blocks {
 		ifi, ok := b.Instrs[len(b.Instrs)-1].(*ssa.If)
 		if !ok {
@@ -288,7 +300,6 @@ func (c *Ctx) scanCompleteness(fn *ssa.Function, match FP, what string) {
 				Barrier: func(in ssa.Instruction) bool { return in == h.Instrs[0] }})
 		}
 	}
-	c.Check(n >= 1, "R-CUT", FuncName(fn), what+": comparison branch found", w.Pos(fn.Pos()), fmt.Sprint(n))
 }
 
 func runC15(c *Ctx) {
